@@ -45,3 +45,6 @@ package configs
 //@   at[userwithin] call resources.ComponentWiseMin#1: assert arg0 == limitMaxResources && arg1 == existingMax && existingMax == parentUserLimits[user] && fitsIn(existingMax, limitMaxResources)
 //@   at[groupwithin] call resources.ComponentWiseMin#2: assert arg0 == limitMaxResources && arg1 == existingMax && existingMax == parentGroupLimits[group] && fitsIn(existingMax, limitMaxResources)
 //@   at[down] call configs.checkLimitResource#1: assert arg1 == curUserLimits && arg2 == curGroupLimits
+
+// package variables that are initialised once and never assigned again (checked by grep at contract-writing time)
+//@ global MinPriority == -2147483648 && MaxPriority == 2147483647
